@@ -726,9 +726,10 @@ class GraphicsTerminal:
             self._write(b"\033[%dG" % (col + 1), comment=f"Move cursor to column {col}")
         self.out_display.flush()
         if self.tracked_cursor_position is not None:
+            # Note that 0 is a valid column/row, so `col or ...` would be wrong here.
             self.set_tracked_cursor_position(
-                col or self.tracked_cursor_position[0],
-                row or self.tracked_cursor_position[1],
+                col if col is not None else self.tracked_cursor_position[0],
+                row if row is not None else self.tracked_cursor_position[1],
             )
         elif row is not None and col is not None:
             self.set_tracked_cursor_position(
